@@ -932,12 +932,78 @@ class PositivityC04(Monitor):
         n = max(len(r.dz), 1)
         if sim.stop_tick is not None:
             n = min(n, sim.stop_tick)
-        self.probes = {(t - 1) % n + 1: p for t, p in self.probes.items()}
+        # ticks <= 0 count from the last executed tick (0 = last)
+        self.probes = {((t - 1) % n + 1 if t > 0 else max(1, n + t)): p
+                       for t, p in sorted(self.probes.items(),
+                                          key=lambda kv: kv[0] <= 0)}
         # the smallest of the per-assembly / gap limits DASSH computed itself
         try:
             self.limit = float(np.min(r.min_dz['dz']))
         except (AttributeError, KeyError, ValueError, TypeError):
             self.limit = None
+        self.diag_ok = {}
+        if not self.const and self.limit is not None:
+            self._diagonal(sim, r)
+
+    def _diagonal(self, sim, r):
+        """Temperature-dependent worlds: DASSH's own limit function,
+        evaluated pointwise at temperatures across the inlet..outlet range,
+        must nowhere fall below the largest step that is marched (the limit
+        has to hold over the whole range, not just where it happened to be
+        evaluated)."""
+        import pickle
+        import dassh
+        dz_max = float(np.max(r.dz))
+        self.diag_state = {}
+
+        def judge(key, site, lo, hi, fn):
+            lo, hi = min(lo, hi), max(lo, hi)
+            vals = []
+            try:
+                for T in np.linspace(lo, hi, 9):
+                    dz = fn(float(T))
+                    if dz is None:
+                        return
+                    vals.append((float(dz), float(T)))
+            except SystemExit:
+                return
+            sim.probe('c04.diagonal_checked' + ('_gap' if key == 'gap'
+                                                else ''))
+            worst = min(vals)
+            ends_ok = min(vals[0][0], vals[-1][0]) >= dz_max - 2e-12
+            ok = worst[0] >= dz_max - 2e-12
+            if min(vals[0][0], vals[-1][0]) > worst[0] * (1 + 1e-12):
+                sim.probe('c04.limit_minimum_inside_range')
+            self.diag_ok[key] = ok
+            self.diag_state[key] = 'ok' if ok else (
+                'interior_minimum' if ends_ok else 'end_point')
+            if not ok:
+                f = {'tdep', 'limit_range'}
+                if key == 'gap':
+                    f.add('gap')
+                # both ends of the range respect the marched step, the limit
+                # dips below it in between: known finding F-C04-2
+                if ends_ok:
+                    f.add('interior_minimum')
+                sim.violate(
+                    'positivity.limit_not_over_range', site,
+                    f'largest step marched is {dz_max!r} but DASSH\'s own '
+                    f'limit at T={worst[1]!r} (inside [{lo!r}, {hi!r}]) is '
+                    f'{worst[0]!r} (at the ends {vals[0][0]!r}, '
+                    f'{vals[-1][0]!r})', f)
+
+        with sim.paused():
+            rr = pickle.loads(pickle.dumps(r))
+            n = len(rr.assemblies)
+            for ai, a in enumerate(rr.assemblies):
+                judge(ai, f'asm{a.id}', float(rr.inlet_temp),
+                      float(a._estimated_T_out),
+                      lambda T, a=a: dassh.assembly.calculate_min_dz(
+                          a, T, T, rr._is_adiabatic)[0])
+            if len(r.min_dz['dz']) > n and sim.gap_range:
+                judge('gap', 'gap', sim.gap_range[0], sim.gap_range[1],
+                      lambda T: dassh.core.calculate_min_dz(
+                          rr.core, T, T)[0])
 
     # -- invariants ----------------------------------------------------------
     def on_tick_begin(self, sim, r, z, dz, step):
@@ -1153,10 +1219,38 @@ class PositivityC04(Monitor):
                     idx[0] == reg0.n_bypass - 1:
                 return
         cols = []
+        # frozen coefficients: the unperturbed copy records the temperatures
+        # at which the update method evaluates its materials, the perturbed
+        # copy is made to evaluate them at exactly those temperatures, so the
+        # difference is the column of the linear operator the step limit is
+        # meant for (no d(property)/dT terms)
+        tapes = {}
+
+        def _tape(mat, key, record):
+            orig = mat.update
+            if record:
+                tapes[key] = []
+
+                def upd(t, _o=orig, _l=tapes[key]):
+                    _l.append(float(t))
+                    return _o(t)
+            else:
+                lst = list(tapes.get(key, []))
+
+                def upd(t, _o=orig, _l=lst):
+                    return _o(_l.pop(0) if _l else t)
+            mat.update = upd
+
         with sim.paused():
             for d in (0.0, delta):
                 rr = pickle.loads(blob)
                 try:
+                    if kind == 'gap':
+                        _tape(rr.core.gap_coolant, 'gap', d == 0.0)
+                    else:
+                        _rg = rr.assemblies[ai].active_region
+                        _tape(_rg.coolant, 'coolant', d == 0.0)
+                        _tape(_rg.duct, 'duct', d == 0.0)
                     if kind == 'gap':
                         core = rr.core
                         if core.model != 'flow':
@@ -1200,10 +1294,48 @@ class PositivityC04(Monitor):
             r.assemblies[ai].active_region.temp['coolant_byp']))) \
             if kind.startswith('byp') else int(idx)
         self_w = float(col[flat])
-        tol = 1e-10 if self.const else 2e-2
+        tol = 1e-10 if self.const else 1e-8
         f = set(feats) | self._world_feats(r) | {'update_method'}
         f.add('const' if self.const else 'tdep')
         sim.probe('c04.method_probe.' + kind)
+        if not self.const:
+            # C04 speaks about material properties inside the inlet..outlet
+            # range the limits are evaluated for; a state outside it (wall
+            # hotter than the outlet estimate, bypass colder than ...) is
+            # counted, not judged
+            if kind == 'gap':
+                lo, hi = sim.gap_range if sim.gap_range else (
+                    float(r.inlet_temp), None)
+                if hi is not None:
+                    lo, hi = min(lo, hi), max(lo, hi)
+            else:
+                a0 = r.assemblies[ai]
+                lo, hi = float(r.inlet_temp), float(a0._estimated_T_out)
+                lo, hi = min(lo, hi), max(lo, hi)
+            used = [t for k in ('coolant', 'duct', 'gap')
+                    for t in tapes.get(k, [])]
+            if hi is None or any(t < lo - 1e-6 or t > hi + 1e-6
+                                 for t in used):
+                if min(self_w, col.min()) < -tol or col.max() > 1 + tol:
+                    sim.probe('c04.method_probe_outside_range_negative')
+                sim.probe('c04.method_probe_outside_range')
+                return
+            sim.probe('c04.method_probe_tdep_in_range')
+            # formula vs operator is settled exactly in constant worlds and
+            # the limit over the range by the diagonal invariant; what is
+            # left in a temperature-dependent world is that properties and
+            # correlated parameters enter one update at *different*
+            # temperatures of the range (tracker lag, region average), which
+            # the limits - evaluated with both at one temperature - do not
+            # cover: known finding F-C04-1 while it stays below 2 %
+            worst = min(self_w, float(col.min()), 1.0 - float(col.max()))
+            key = 'gap' if kind == 'gap' else ai
+            if -2e-2 <= worst < -tol:
+                st = getattr(self, 'diag_state', {}).get(key)
+                if st == 'ok':
+                    f.add('mixed_temperature_lag')
+                elif st == 'interior_minimum':
+                    f.add('interior_minimum')
         if self._limiting(r) == (kind, ai):
             f.add('limiting_cell')
         if self_w < -tol:
